@@ -1,7 +1,9 @@
 """Run one Kani harness, parse CBMC's verdicts, extract a counterexample's primary input bytes."""
 import os, re, resource, signal, subprocess, time
 
-CHECK_RE = re.compile(r"^Check (\d+): (\S+)\n\t - Status: (\w+)\n\t - Description: \"(.*)\"\n(?:\t - Location: (.*)\n)?", re.M)
+# the check name is the rest of the line: names of checks inside generic / trait functions contain spaces
+# (e.g. `<usize as core::slice::SliceIndex<[u32]>>::index.assertion.1`)
+CHECK_RE = re.compile(r"^Check (\d+): (.+)\n\t - Status: (\w+)\n\t - Description: \"(.*)\"\n(?:\t - Location: (.*)\n)?", re.M)
 
 
 def _limits(mem_gb):
@@ -68,7 +70,7 @@ def parse_log(text):
     return res
 
 
-def playback_inputs(text, nbytes):
+def playback_inputs(text, nbytes=None):
     """First non-cover concrete playback block -> first nbytes nondet bytes (hex) or None."""
     blocks = re.split(r"^Concrete playback unit test for ", text, flags=re.M)[1:]
     for b in blocks:
@@ -80,6 +82,6 @@ def playback_inputs(text, nbytes):
         vals = []
         for v in re.findall(r"^\s*vec!\[([0-9, ]*)\],?\s*$", code, re.M):
             vals.extend(int(x) for x in v.replace(" ", "").split(",") if x != "")
-        if len(vals) >= nbytes:
-            return bytes(vals[:nbytes]).hex(), kind, (m.group(2) if m else "")
+        if vals:
+            return bytes(vals[:nbytes] if nbytes else vals).hex(), kind, (m.group(2) if m else "")
     return None, None, None
